@@ -13,7 +13,7 @@ RULE = (
     "three sources of restricted-subset text: (1) random ASTs in the fast parser's documented subset (any gate mix and arity, constants as gate operands, pin "
     "ties and assigns, assigns of a net, blackboxes with unconnected pins, any statement order, random spaces/tabs/newlines everywhere except between ')' and ';', no comments), "
     "(2) circuit_to_verilog output for random circuits (gate-primitive form, constants, blackboxes with unconnected pins), (3) bundled library netlists that pass a checker of the "
-    "documented restrictions; verilog_to_circuit(fast=True) and the full parser must give the same inputs, outputs, blackbox registry, pin nets, and - after renaming the shared "
+    "documented restrictions; the fast parser is called directly or through from_file(fast=True) on a temporary file, blackbox definitions as list / tuple / set / dict view; verilog_to_circuit(fast=True) and the full parser must give the same inputs, outputs, blackbox registry, pin nets, and - after renaming the shared "
     "constant nodes - identical graphs and the same function at every output and bb_input. On a disagreement the generated AST's evaluator says which parser deviates. "
     "non-trivial = >=2 statements; distinct = text"
 )
@@ -143,6 +143,8 @@ def check(case, ctx):
             ctx.trivial()
         if ast.get("renamed"):
             ctx.count("nets_named_like_constants")
+    if "\r\n" in text:
+        ctx.count("crlf_line_endings")
     tail = f"\n--- text ---\n{text[:1500]}"
     # the same definitions in another legal container; the fast parser also reached through from_file
     h = zlib.crc32(text.encode())
